@@ -80,6 +80,12 @@ Theorem C13_highpass_z_exp_contracts : forall wc, 0 < wc < PI ->
 Proof. intros wc Hw. exact (conj (highpass_z_exp_nyquist_gain wc Hw) (highpass_z_exp_pole_inside wc Hw)). Qed.
 Print Assumptions C13_highpass_z_exp_contracts.
 
+(* the only pole of a first order section 1 + k zinv is z = -k: with the theorems above the pole
+   of the lowpass designs is R resp. -R (z strategies), of the highpass designs -R resp. R *)
+Theorem C13_first_order_pole : forall num k (p : C), is_pole (Filt num [1; k]) p <-> p = RtoC (- k).
+Proof. exact pole_of_ord1. Qed.
+Print Assumptions C13_first_order_pole.
+
 (* abs(freq_response) as the library computes it (|num| / |den| with trigonometric sums) is
    the modulus of the transfer function, wherever the denominator does not vanish *)
 Theorem C13_gain_at_is_modulus : forall f w,
@@ -92,8 +98,7 @@ Print Assumptions C13_gain_at_is_modulus.
         the special case cos wc = 0 of the z strategies is reached at wc = PI/2 (R = 0) *)
 Example C13_lphp_instances :
   (forall wc, 1 / 1000 <= wc <= PI - 1 / 1000 -> 0 < wc < PI) /\
-  (Rabs (lowpass_pole_R 1 - 0.396346) <= 0.000001 /\ half_power_at (lowpass_pole 1) 1 /\
-   Rabs (sqrt (1 / 2) - 0.707107) <= 0.000001) /\
+  (0 < PI / 2 < PI /\ lowpass_pole_R (PI / 2) = 2 - sqrt 3 /\ half_power_at (lowpass_pole (PI / 2)) (PI / 2)) /\
   (cos (PI / 2) = 0 /\ lowpass_z_R (PI / 2) = 0 /\ half_power_at (lowpass_z (PI / 2)) (PI / 2)).
 Proof. exact lphp_instances. Qed.
 Print Assumptions C13_lphp_instances.
